@@ -66,6 +66,31 @@ def run(ck: Checker, prog: Program, tier: str):
     ck.guard(_r5, ck, r)
     ck.guard(_r6, ck, prog, w)
     ck.guard(_r7, ck, prog)
+    ck.guard(_meta_private, ck, prog)
+
+
+def _meta_private(ck: Checker, prog: Program):
+    """The reader hands the parsed header dict to the constructors and reads the stored range from it afterwards; a
+    constructor that keeps (and then updates) the caller's dict would overwrite the range before it is read."""
+    from .common import reachable_nonlocal
+    eng = engine(prog)
+    for q in ("hvsr_curve.HvsrCurve.__init__", "hvsr_traditional.HvsrTraditional.__init__", "hvsr_azimuthal.HvsrAzimuthal.__init__"):
+        init = prog.func(q)
+        if "meta" not in init.params:
+            raise AnalysisError(f"{q}: no `meta` parameter")
+        pi = init.params.index("meta")
+        s_ = eng.summary(init)
+        ent = s_.heap.get((("P", 0, ()), "meta"))
+        if ent is None:
+            raise AnalysisError(f"{q}: self.meta is not stored")
+        shared = [org for _p, org in reachable_nonlocal(eng, s_, ent[0], max_depth=1) if org[0] == "P" and org[1] == pi and _p == ()]
+        writes = [e for e in s_.effects if e.origin[0] == "P" and e.origin[1] == pi]
+        if not shared and not writes:
+            ck.ok("C12.R2", q, "self.meta is a private dict; the caller's dict is not written")
+        else:
+            ck.violation("C12.R2", q, "self.meta shares the caller's dict",
+                         "the constructor keeps the caller's meta dict (and updates it when the peaks are evaluated): the reader's parsed "
+                         "header would lose its stored search range before it is applied", loc=init.loc())
 
 
 # --------------------------------------------------------------------------- R1
@@ -223,62 +248,44 @@ def _assigned_attr(body: ast.AST, call: ast.Call) -> Optional[str]:
 def _r3(ck: Checker, prog: Program, w, r):
     wb = _branches(w, _class_label)
     rb = _branches(r, _method_label)
-    # ---- traditional writer
+    # ---- writer layouts (column interpreter: direct column stores and running-index block loops)
     t = wb.get("HvsrTraditional")
     if t is None:
         raise AnalysisError("writer: HvsrTraditional branch not found")
-    cols = {}
-    for st in t.body:
-        if isinstance(st, ast.Assign) and isinstance(st.targets[0], ast.Subscript) and unparse(st.targets[0].value) == "array":
-            cols[unparse(st.targets[0].slice)] = st
-    want = {
-        "(slice(None, None, None), 0)": "hvsr.frequency",
-        "(slice(None, None, None), slice(1, -2, None))": "hvsr.amplitude.T",
-        "(slice(None, None, None), -2)": "hvsr.mean_curve(distribution=distribution_mc)",
-        "(slice(None, None, None), -1)": "hvsr.std_curve(distribution=distribution_mc)",
-    }
-    got = {_slice_key(st.targets[0].slice): unparse(st.value) for st in cols.values()}
-    _cmp_layout(ck, w, "traditional writer", got, want, t)
-    n_headers = _count_header_entries(t)
-    # ---- azimuthal writer
     a = wb.get("HvsrAzimuthal")
     if a is None:
         raise AnalysisError("writer: HvsrAzimuthal branch not found")
-    got = {}
-    for st in a.body:
-        if isinstance(st, ast.Assign) and isinstance(st.targets[0], ast.Subscript) and unparse(st.targets[0].value) == "array":
-            got[_slice_key(st.targets[0].slice)] = unparse(st.value)
-    want_a = {k: v for k, v in want.items() if "slice(1, -2" not in k}
-    _cmp_layout(ck, w, "azimuthal writer", got, want_a, a)
-    loops = [st for st in a.body if isinstance(st, ast.For) and any(
-        isinstance(x, ast.Subscript) and unparse(x.value) == "array" for x in ast.walk(st))]
-    good = False
-    detail = "block loop not found"
-    if len(loops) == 1:
-        lp = loops[0]
-        hv = lp.target.id if isinstance(lp.target, ast.Name) else None
-        T = Translator()
-        pre = [st for st in a.body if isinstance(st, ast.Assign) and st.lineno < lp.lineno and isinstance(st.targets[0], ast.Name)]
-        forward_substitute(pre, T)
-        start0 = T.env.get("start_index")
-        TL = Translator()
-        s0 = TL.sym("start_index")
-        forward_substitute([st for st in lp.body if isinstance(st, ast.Assign) and isinstance(st.targets[0], ast.Name)], TL)
-        stop = TL.env.get("stop_index")
-        nxt = TL.env.get("start_index")
-        stores = [st for st in lp.body if isinstance(st, ast.Assign) and isinstance(st.targets[0], ast.Subscript)]
-        it_ok = unparse(lp.iter) == "hvsr.hvsrs" and hv is not None
-        store_ok = len(stores) == 1 and _slice_key(stores[0].targets[0].slice) == "(slice(None, None, None), slice(start_index, stop_index, None))" \
-            and unparse(stores[0].value) == f"{hv}.amplitude.T"
-        rec_ok = start0 == 1 and stop is not None and equal(stop, s0 + TL.sym(f"{hv}.n_curves")) and nxt is not None and equal(nxt, stop)
-        order_ok = stores and all(st.lineno > [x for x in lp.body if isinstance(x, ast.Assign) and unparse(x.targets[0]) == "stop_index"][0].lineno
-                                  for st in stores) if store_ok else False
-        good = it_ok and store_ok and rec_ok and order_ok
-        detail = f"iterates hvsr.hvsrs={it_ok}; block store={store_ok}; start=1, stop=start+n_curves, start'=stop: {rec_ok}"
-    if good:
-        ck.ok("C12.R3", W, "azimuthal blocks: consecutive [start, start+n_curves) per azimuth, in azimuth order", detail=detail)
-    else:
-        ck.violation("C12.R3", W, "azimuthal column blocks", f"per-azimuth curve blocks are not laid out consecutively in azimuth order: {detail}", loc=w.loc(a))
+    TX = Translator()
+    TX.attr_of_bound = True
+    TX.structured = True
+    want_curves = {
+        "traditional": TX.tr(ast.parse("[hvsr.amplitude]", mode="eval").body),
+        "azimuthal": TX.tr(ast.parse("[_h.amplitude for _h in hvsr.hvsrs]", mode="eval").body),
+    }
+    for what, br in (("traditional", t), ("azimuthal", a)):
+        lay = _writer_layout(prog, w, br.body)
+        bad = list(lay["problems"])
+        cols = lay["cols"]
+        FRQ = TX.tr(ast.parse("hvsr.frequency", mode="eval").body)
+        H, DMC = TX.sym("hvsr"), TX.sym("distribution_mc")
+        want_cols = {"0": FRQ, "-2": sp.Function("mean_curve")(H, DMC), "-1": sp.Function("std_curve")(H, DMC)}
+        for k, v in want_cols.items():
+            g = cols.get(k)
+            if g is None:
+                bad.append(f"column {k} not written")
+            elif g != v:
+                bad.append(f"column {k} holds `{g}`, expected `{v}`")
+        extra = sorted(set(cols) - set(want_cols))
+        if extra:
+            bad.append(f"unexpected column stores {extra}")
+        if lay["curves"] is None:
+            bad.append("curve columns 1:-2 not written")
+        elif lay["curves"] != want_curves[what]:
+            bad.append(f"curve columns hold the rows of {lay['curves']}, expected those of {want_curves[what]} (in order, starting at column 1)")
+        if bad:
+            ck.violation("C12.R3", W, f"{what} writer columns", "; ".join(bad), loc=w.loc(br))
+        else:
+            ck.ok("C12.R3", W, f"{what} writer columns", detail=f"0 <- frequency; 1:-2 <- rows of {want_curves[what]}; -2 <- mean curve; -1 <- std curve (distribution_mc)")
     # headers: one per curve in the same nesting order as the blocks
     hl = [st for st in a.body if isinstance(st, ast.For) and any(isinstance(x, ast.JoinedStr) for x in ast.walk(st))]
     hdr_ok = False
@@ -304,12 +311,22 @@ def _r3(ck: Checker, prog: Program, w, r):
     rt = rb.get("traditional")
     if rt is None:
         raise AnalysisError("reader: traditional branch not found")
+    from ..resolve import Resolver, canon
+    RR = Resolver(prog, r, inline=False)
     cons = [c for c in calls_in(ast.Module(body=rt.body, type_ignores=[]), "HvsrTraditional")]
-    if len(cons) == 1 and [unparse(x) for x in cons[0].args[:2]] == ["array[:, 0]", "array[:, 1:-2].T"]:
+    want0 = canon(RR.expect("array[:, 0]"))
+    want1 = canon(RR.expect("array[:, 1:-2].T"))
+    ARR = RR.expect("array")
+    got = []
+    if len(cons) == 1 and len(cons[0].args) >= 2:
+        st = parent_stmt(cons[0])
+        arr_def = canon(RR.value(ast.Name(id="array", ctx=ast.Load()), st))
+        got = [canon(RR.value(x, st)).subs(arr_def, ARR) for x in cons[0].args[:2]]
+    if got == [want0, want1]:
         ck.ok("C12.R3", R, norm_key(cons[0]), detail="frequency = column 0, curves = columns 1:-2 transposed")
     else:
         ck.violation("C12.R3", R, "traditional reader slices",
-                     f"reader builds HvsrTraditional from {[unparse(x) for c in cons for x in c.args[:2]]}; writer layout is column 0 / 1:-2", loc=r.loc(rt))
+                     f"reader builds HvsrTraditional from {got}; writer layout is column 0 / 1:-2", loc=r.loc(rt))
     ra = rb.get("azimuthal")
     if ra is None:
         raise AnalysisError("reader: azimuthal branch not found")
@@ -322,12 +339,121 @@ def _r3(ck: Checker, prog: Program, w, r):
         for st in (wd.body if wd else []):
             if isinstance(st, ast.Assign) and isinstance(st.targets[0], ast.Subscript) and unparse(st.targets[0].value) == "array":
                 gotd[_slice_key(st.targets[0].slice)] = unparse(st.value)
-        okd = len(cons) == 1 and [unparse(x) for x in cons[0].args[:2]] == ["array[:, 0]", "array[:, 1]"] and \
+        gotr = []
+        if len(cons) == 1 and len(cons[0].args) >= 2:
+            st = parent_stmt(cons[0])
+            arr_def = canon(RR.value(ast.Name(id="array", ctx=ast.Load()), st))
+            gotr = [canon(RR.value(x, st)).subs(arr_def, ARR) for x in cons[0].args[:2]]
+        okd = gotr == [want0, canon(RR.expect("array[:, 1]"))] and \
             gotd == {"(slice(None, None, None), 0)": "hvsr.frequency", "(slice(None, None, None), 1)": "hvsr.amplitude"}
         if okd:
             ck.ok("C12.R3", R, "diffuse field: columns 0, 1")
         else:
             ck.violation("C12.R3", R, "diffuse field layout", f"writer {gotd} vs reader {[unparse(x) for c in cons for x in c.args[:2]]}", loc=r.loc(rdif))
+
+
+def _writer_layout(prog: Program, w, stmts):
+    """Interpret the column stores of one writer branch.
+    Returns {"cols": {"0"|"-1"|...: value}, "curves": canonical sequence of the 2-D arrays whose rows fill columns 1:-2, "problems": [...]}."""
+    from ..pathtable import PathTable
+    from ..dataflow import loop_carried
+    from .common import pkg_call_hook
+    gi, sl, idx_, NONE = sp.Function("getitem"), sp.Function("slice"), sp.Function("idx"), sp.Symbol("None")
+    comp, gen = sp.Function("comp"), sp.Function("gen")
+    ALL = sl(NONE, NONE, NONE)
+    hook = _method_hook(prog)
+    pt = PathTable(prog, w.module, call_hook=hook, structured=True)
+    leaves = pt.leaves(stmts)
+    out = {"cols": {}, "curves": None, "problems": []}
+    if len(leaves) != 1:
+        raise AnalysisError(f"writer branch has {len(leaves)} paths")
+    l = leaves[0]
+    arr = None
+    for e in l.events:
+        if e[0] == "store" and id(e[3]) in l.store_at:
+            base, ix = l.store_at[id(e[3])]
+            if not (getattr(ix, "func", None) == idx_ and len(ix.args) == 2 and ix.args[0] == ALL):
+                continue
+            arr = base
+            c = ix.args[1]
+            if c.is_Integer:
+                out["cols"][str(c)] = e[2]
+            elif getattr(c, "func", None) == sl and c.args == (sp.Integer(1), sp.Integer(-2), NONE):
+                v = e[2]
+                if getattr(v, "func", None) == sp.Function("attr_T"):
+                    out["curves"] = sp.Tuple(v.args[0])
+                else:
+                    out["problems"].append(f"columns 1:-2 hold {v}, not a transposed array of curves")
+            else:
+                out["problems"].append(f"column store at {c} not recognised")
+        elif e[0] == "loop":
+            lp = e[3]
+            if not any(isinstance(x, ast.Subscript) and isinstance(x.ctx, ast.Store) and isinstance(x.slice, ast.Tuple) for x in ast.walk(lp)):
+                continue
+            env0 = l.snaps[id(lp)][0]
+            if not isinstance(lp, ast.For) or not isinstance(lp.target, ast.Name) or any(isinstance(x, (ast.Break, ast.Continue, ast.If)) for x in ast.walk(lp)):
+                out["problems"].append(f"block loop `{norm_key(lp, 60)}` not recognised")
+                continue
+            T0 = Translator(env=env0, call_hook=hook)
+            T0.attr_of_bound = True
+            T0.structured = True
+            seq = T0.tr(lp.iter)
+            carried = sorted({nm for (nm, _u, _d) in loop_carried(w, lp)} & set(env0))
+            if len(carried) != 1:
+                out["problems"].append(f"block loop carries {carried} between blocks")
+                continue
+            sv = carried[0]
+            S = sp.Symbol("<start>", integer=True)
+            ITEM = sp.Symbol("<item>", real=True)
+            env = dict(env0)
+            env[sv] = S
+            env[lp.target.id] = ITEM
+            sub = PathTable(prog, w.module, call_hook=hook, env=env, structured=True).leaves(lp.body)
+            if len(sub) != 1:
+                out["problems"].append("branching block loop")
+                continue
+            sl_ = sub[0]
+            stores = [(sl_.store_at[id(x[3])], x[2]) for x in sl_.events if x[0] == "store" and id(x[3]) in sl_.store_at]
+            if len(stores) != 1:
+                out["problems"].append(f"{len(stores)} stores per block")
+                continue
+            (base, ix), val = stores[0]
+            width = sp.simplify(sl_.env[sv] - S)
+            okb = getattr(ix, "func", None) == idx_ and ix.args[0] == ALL and getattr(ix.args[1], "func", None) == sl \
+                and ix.args[1].args[0] == S and sp.simplify(ix.args[1].args[1] - S - width) == 0 and ix.args[1].args[2] == NONE
+            if not okb or width.has(S):
+                out["problems"].append(f"block stored at {ix} while the running index advances by {width}: blocks are not laid out consecutively")
+                continue
+            if env0[sv] != 1:
+                out["problems"].append(f"the first block starts at column {env0[sv]}, not 1")
+            if getattr(val, "func", None) != sp.Function("attr_T"):
+                out["problems"].append(f"a block holds {val}, not a transposed array of curves")
+                continue
+            block = val.args[0]
+            rows = [sp.Function("len")(block), gi(sp.Function("attr_shape")(block), sp.Integer(0))]
+            if getattr(block, "func", None) == sp.Function("attr_amplitude"):
+                rows.append(sp.Function("attr_n_curves")(block.args[0]))
+            if width not in rows:
+                out["problems"].append(f"a block of {block} is given {width} columns, not one per curve")
+            it0 = sp.Symbol("_it0")
+            if block == ITEM:
+                out["curves"] = seq
+            else:
+                out["curves"] = comp(block.subs(ITEM, it0), gen(it0, seq))
+            arr = base
+    return out
+
+
+def _method_hook(prog: Program):
+    """hvsr.mean_curve(distribution=d) / hvsr.std_curve(d) -> canonical mean_curve(hvsr, d)."""
+    def hook(call, T):
+        if isinstance(call.func, ast.Attribute) and call.func.attr in ("mean_curve", "std_curve") and isinstance(call.func.value, ast.Name):
+            d = kwarg(call, "distribution") or (call.args[0] if call.args else None)
+            if d is None:
+                return None
+            return sp.Function(call.func.attr)(T.tr(call.func.value), T.tr(d))
+        return None
+    return hook
 
 
 def _slice_key(s: ast.AST) -> str:
